@@ -164,14 +164,21 @@ def switches_in_flight(r):
 
 
 def signature(code, mode):
-    """Stable structural class of a violating run."""
+    """Stable structural class of a violating run.  The two classes of the known check-then-mark
+    defect absorb only the clauses that defect explains (handler twice / KeyError in
+    pre_disconnect, the pending_disconnect leftover); anything else stays visible."""
     names = [name for bit, name, _ in CLAUSES if code & bit]
     if code & 256:
+        extra = [name for bit, name, _ in CLAUSES if code & bit and bit in (8, 64, 128)]
+        if code & 16 and not code & 512:
+            extra.append('exception-escapes')
         if code & 4:
-            return 'double-check-window-handler-twice'
-        if code & 512 and code & 16 and code & 32:
-            return 'double-check-window-keyerror-pending-leftover'
-        return 'double-check-window-' + '+'.join(names)
+            base = 'double-check-window-handler-twice'
+        elif code & 512 and code & 16 and code & 32:
+            base = 'double-check-window-keyerror-pending-leftover'
+        else:
+            return 'double-check-window-' + '+'.join(names)
+        return base + ''.join('+' + x for x in extra)
     return '+'.join(names) + '-without-double-check' + ('' if mode == 'threads' else '@asyncio')
 
 
@@ -218,7 +225,7 @@ def plan(thorough):
 
 def _explore_one(task):
     """Worker (own process): every run of one scenario, as (kind, schedule, switches, result-lite)."""
-    name, sc, how, seed, mode = task
+    name, sc, how, seed, mode, cap = task
     from vt import common
     rng = common.Rng(seed).sub('C20/%s/%s' % (mode, name))
     runner = S.run_threads if mode == 'threads' else S.run_async
@@ -228,11 +235,11 @@ def _explore_one(task):
         out.append({'kind': kind, 'schedule': list(r.schedule), 'trace': r.trace, 'final': r.final,
                     'alldone': r.alldone, 'error': r.error, 'sw': switches_in_flight(r)})
     if how == 'all':
-        for r in S.explore(runner, sc, limit=200000):
+        for r in S.explore(runner, sc, limit=cap):
             add(r, 'exhaustive')
     else:
         _, k, walks = how
-        for r in S.explore(runner, sc, limit=60000, max_preempt=k):
+        for r in S.explore(runner, sc, limit=cap, max_preempt=k):
             add(r, 'preemptions<=%d' % k)
         for _ in range(walks):
             add(S.random_walk(runner, sc, rng), 'random walk')
@@ -260,6 +267,7 @@ def collect(chk, mode, gran, the_plan, witnesses):
         r = Lite(rec)
         cases.append(case_term(gran, defs.name(sc), r))
         meta.append({'mode': mode, 'scenario': name, 'sc': sc, 'schedule': r.schedule, 'kind': r.kind,
+                     'order': len(defs.names),
                      'error': r.error, 'expect': expect, 'trace': r.trace, 'final': r.final})
         sample = None
         if r.sw and len(chk.samples) < 6 and r.kind == 'exhaustive' and len(meta) % 97 == 0:
@@ -281,7 +289,9 @@ def collect(chk, mode, gran, the_plan, witnesses):
                                     'sw': switches_in_flight(r)}, expect)
     if mode != 'threads':
         S.close_loop()
-    tasks = [(name, sc, how, chk.rng.seed_value, mode) for name, sc, how in the_plan]
+    # the cap only matters on a tree whose behaviour has left the model (e.g. an extra suspension point)
+    cap = 200000 if chk.thorough else 6000
+    tasks = [(name, sc, how, chk.rng.seed_value, mode, cap) for name, sc, how in the_plan]
     ctx = multiprocessing.get_context('fork')
     with ctx.Pool(min(common.NCPU, max(1, len(tasks)))) as pool:
         results = pool.map(_explore_one, tasks, chunksize=1)
@@ -343,7 +353,7 @@ def judge(chk, tag, defs, cases, meta, corr_sig):
 
 
 def _size(m):
-    return (len(m['sc']['causes']), len(m['sc']['setup']), len(m['schedule']), m['schedule'])
+    return (len(m['sc']['causes']), len(m['sc']['setup']), len(m['schedule']), m['order'], m['schedule'])
 
 
 def _replay_of(m, case):
@@ -373,7 +383,7 @@ def run(chk):
         'well-formed and quiescent (no disconnect in progress)',
         'disconnect handlers do not call back into the server API; a scripted handler may raise',
         'thread pre-emption inside one manager call is not explored (see trusted base)']
-    chk.prove()
+    chk.prove(targets=['Check/C20Check.v'])
     defs, cases, meta = collect(chk, 'threads', 'GThread', plan(chk.thorough), WITNESSES)
     judge(chk, 'c20', defs, cases, meta, 'c20-correspondence')
 
